@@ -44,38 +44,38 @@ def Branches.rows {α β} (b : Branches α β) : b.St → List (Ev α) → List 
   | _, [] => []
   | s, e :: t => (b.stepAll s e).2 :: Branches.rows b (b.stepAll s e).1 t
 
-def joinChunk {β γ} (mode : Join) (n : Nat) (mk : List (Option β) → γ) (inj : β → γ) (ra : Bool) :
+def teeJoinChunk {β γ} (mode : Join) (n : Nat) (mk : List (Option β) → γ) (inj : β → γ) (ra : Bool) :
     Nat → JoinSt β → List (List (Ev β)) → JoinSt β × List (Ev γ)
   | _, j, [] => (j, [])
   | i, j, c :: cs =>
     let a := feedJoin mode n mk inj ra i j c
-    let r := joinChunk mode n mk inj ra (i + 1) a.1 cs
+    let r := teeJoinChunk mode n mk inj ra (i + 1) a.1 cs
     (r.1, a.2 ++ r.2)
 
-def joinRun {β γ} (mode : Join) (n : Nat) (mk : List (Option β) → γ) (inj : β → γ) (ra : Bool) :
+def teeJoinRun {β γ} (mode : Join) (n : Nat) (mk : List (Option β) → γ) (inj : β → γ) (ra : Bool) :
     JoinSt β → List (List (List (Ev β))) → List (List (Ev γ))
   | _, [] => []
-  | j, row :: rows => (joinChunk mode n mk inj ra 0 j row).2 :: joinRun mode n mk inj ra (joinChunk mode n mk inj ra 0 j row).1 rows
+  | j, row :: rows => (teeJoinChunk mode n mk inj ra 0 j row).2 :: teeJoinRun mode n mk inj ra (teeJoinChunk mode n mk inj ra 0 j row).1 rows
 
 theorem step_eq_all {α β γ} (mode : Join) (n : Nat) (mk : List (Option β) → γ) (inj : β → γ) (ra : Bool) :
     ∀ (b : Branches α β) (i : Nat) (s : b.St) (j : JoinSt β) (e : Ev α),
       Branches.step mode n mk inj ra b i s j e =
-        ((b.stepAll s e).1, (joinChunk mode n mk inj ra i j (b.stepAll s e).2).1,
-          (joinChunk mode n mk inj ra i j (b.stepAll s e).2).2)
+        ((b.stepAll s e).1, (teeJoinChunk mode n mk inj ra i j (b.stepAll s e).2).1,
+          (teeJoinChunk mode n mk inj ra i j (b.stepAll s e).2).2)
   | .nil, _, _, _, _ => rfl
   | .cons Q r, i, s, j, e => by
-    simp only [Branches.step, Branches.stepAll, joinChunk]
+    simp only [Branches.step, Branches.stepAll, teeJoinChunk]
     rw [step_eq_all mode n mk inj ra r (i + 1) s.2 _ e]
 
 theorem tee_decompose {α β γ} (mode : Join) (mk : List (Option β) → γ) (inj : β → γ) (ra : Bool) (b : Branches α β) :
     ∀ (t : List (Ev α)) (s : b.St) (j : JoinSt β),
-      runSteps (teeMux mode mk inj ra b).step (s, j) t = joinRun mode b.length mk inj ra j (b.rows s t) := by
+      runSteps (teeMux mode mk inj ra b).step (s, j) t = teeJoinRun mode b.length mk inj ra j (b.rows s t) := by
   intro t
   induction t with
   | nil => intros; rfl
   | cons e t ih =>
     intro s j
-    simp only [runSteps, teeMux, Branches.rows, joinRun]
+    simp only [runSteps, teeMux, Branches.rows, teeJoinRun]
     rw [step_eq_all]
     simp only
     rw [← ih]; rfl
